@@ -110,51 +110,7 @@ def run(ctx):
                "execute_index_seek can return rows that come neither from the index lookup nor from the fallback scan", sb.file)
 
     # ---- clause 5 ---------------------------------------------------------
-    INDEXDEF = "nervusdb_storage::index::catalog::IndexDef"
-    FLUSH = "nervusdb_storage::index::catalog::IndexCatalog::flush"
-    flushes = [c.bb for c in cb.calls() if c.name == FLUSH]
-    commits = [c.bb for c in cb.calls() if c.name == M.WAL_APPEND and M.wal_append_variant(cb, c) == "CommitTx"]
-    roots = []
-    for bi, blk in enumerate(cb.blocks):
-        for st in blk["s"]:
-            if st[0] == "a" and any(isinstance(p_, list) and p_[0] == "f" and p_[2] == "root" and p_[3] == INDEXDEF for p_ in st[1][1]):
-                roots.append((bi, st[3]))
-    ctx.floor("C15.5", "index root updates in commit", len(roots), 3)
-    for k, (bi, line) in enumerate(roots):
-        seen = cb.reachable([bi], avoid=set(flushes) | paths.fail_blocks(cb))
-        bad = [c for c in commits if c in seen]
-        if bad and flushes:
-            # accepted idiom: the flush is guarded by a boolean flag that this path has set to true
-            from ..mirutil import value_root
-            guards = []
-            for sb in range(len(cb.blocks)):
-                tt = cb.term(sb)
-                if tt[0] != "switch" or tt[4] != "bool":
-                    continue
-                arms = [tb for _, tb in tt[2]] + [tt[3]]
-                reach = [any(f in cb.reachable([a]) for f in flushes) for a in arms]
-                if any(reach) and not all(reach):
-                    lv = op_local(tt[1])
-                    if lv is not None:
-                        guards.append((sb, value_root(cb, lv)))
-            if guards:
-                ok_all = True
-                for sb, flag in guards:
-                    if sb not in seen:
-                        continue
-                    setters = set()
-                    for x, blk2 in enumerate(cb.blocks):
-                        for st2 in blk2["s"]:
-                            if st2[0] == "a" and st2[1][0] == flag and not st2[1][1] and st2[2][0] == "use" and st2[2][1][0] == "k" and st2[2][1][1].get("v") == 1:
-                                setters.add(x)
-                    if sb in cb.reachable([bi], avoid=setters - {bi}) and bi not in setters:
-                        ok_all = False
-                if ok_all:
-                    bad = []
-        ctx.instance("C15.5", "commit: root update #%d flushed before CommitTx=%s" % (k, not bad))
-        ctx.oblige(not bad and flushes, "C15.5", "commit:root-update#%d-not-flushed" % k,
-                   "an index root moved in memory can reach the commit record without the catalog page being rewritten: after reopen the catalog "
-                   "names the pre-split root and equality lookups return a strict subset", "%s:%d" % (cb.file, line))
+    root_flush_rule(ctx, "C15.5")
 
     # ---- clause 6: "the index has nothing" must reach the scan fallback ------------------------------------------
     # execute_index_seek falls back to a label scan when lookup_index answers None.  Because indexes are not back-filled and not maintained
@@ -216,6 +172,57 @@ def run(ctx):
     ctx.oblige(reads_record and not delegates, "C15.7", "StorageSnapshot::node_label:not-creation-label",
                "node_label no longer answers with the creation label stored in the node-table record: the label under which commit maintains a node's index "
                "entries drifts when labels are added or removed, and IndexSeek misses rows a scan returns", nlb.file)
+
+
+def root_flush_rule(ctx, rid="C15.5"):
+    """every update of an index root in the catalog is followed by IndexCatalog::flush before the CommitTx record (shared as C01.10)"""
+    cb = ctx.body(M.COMMIT)
+    # ---- clause 5 ---------------------------------------------------------
+    INDEXDEF = "nervusdb_storage::index::catalog::IndexDef"
+    FLUSH = "nervusdb_storage::index::catalog::IndexCatalog::flush"
+    flushes = [c.bb for c in cb.calls() if c.name == FLUSH]
+    commits = [c.bb for c in cb.calls() if c.name == M.WAL_APPEND and M.wal_append_variant(cb, c) == "CommitTx"]
+    roots = []
+    for bi, blk in enumerate(cb.blocks):
+        for st in blk["s"]:
+            if st[0] == "a" and any(isinstance(p_, list) and p_[0] == "f" and p_[2] == "root" and p_[3] == INDEXDEF for p_ in st[1][1]):
+                roots.append((bi, st[3]))
+    ctx.floor(rid, "index root updates in commit", len(roots), 3)
+    for k, (bi, line) in enumerate(roots):
+        seen = cb.reachable([bi], avoid=set(flushes) | paths.fail_blocks(cb))
+        bad = [c for c in commits if c in seen]
+        if bad and flushes:
+            # accepted idiom: the flush is guarded by a boolean flag that this path has set to true
+            from ..mirutil import value_root
+            guards = []
+            for sb in range(len(cb.blocks)):
+                tt = cb.term(sb)
+                if tt[0] != "switch" or tt[4] != "bool":
+                    continue
+                arms = [tb for _, tb in tt[2]] + [tt[3]]
+                reach = [any(f in cb.reachable([a]) for f in flushes) for a in arms]
+                if any(reach) and not all(reach):
+                    lv = op_local(tt[1])
+                    if lv is not None:
+                        guards.append((sb, value_root(cb, lv)))
+            if guards:
+                ok_all = True
+                for sb, flag in guards:
+                    if sb not in seen:
+                        continue
+                    setters = set()
+                    for x, blk2 in enumerate(cb.blocks):
+                        for st2 in blk2["s"]:
+                            if st2[0] == "a" and st2[1][0] == flag and not st2[1][1] and st2[2][0] == "use" and st2[2][1][0] == "k" and st2[2][1][1].get("v") == 1:
+                                setters.add(x)
+                    if sb in cb.reachable([bi], avoid=setters - {bi}) and bi not in setters:
+                        ok_all = False
+                if ok_all:
+                    bad = []
+        ctx.instance(rid, "commit: root update #%d flushed before CommitTx=%s" % (k, not bad))
+        ctx.oblige(not bad and flushes, rid, "commit:root-update#%d-not-flushed" % k,
+                   "an index root moved in memory can reach the commit record without the catalog page being rewritten: after reopen the catalog "
+                   "names the pre-split root and equality lookups return a strict subset", "%s:%d" % (cb.file, line))
 
 
 def full_label_filter_rule(ctx, rid="C15.8"):
